@@ -136,7 +136,7 @@ type groundRead struct {
 func collectGroundReads(t *Term, bound map[string]bool, out *[]groundRead, seen map[string]bool) {
 	switch t.Op {
 	case "app":
-		if t.Name == "select" && t.Args[0].Sort == SArrI || t.Name == "select" && t.Args[0].Sort == SArrB {
+		if t.Name == "select" {
 			if !mentionsBound(t, bound) {
 				key := t.String()
 				if !seen[key] {
@@ -145,7 +145,7 @@ func collectGroundReads(t *Term, bound map[string]bool, out *[]groundRead, seen 
 				}
 			}
 		}
-		if t.Name == "store" && (t.Sort == SArrI || t.Sort == SArrB) && !mentionsBound(t, bound) {
+		if t.Name == "store" && !mentionsBound(t, bound) {
 			// a write is also a relevant index for the array being written
 			key := "st:" + t.String()
 			if !seen[key] {
@@ -179,7 +179,7 @@ func baseArray(a *Term) *Term {
 // bodyReads: selects in a quantifier body whose index mentions the bound variable.
 func bodyReads(t *Term, k *Term, out *[]groundRead) {
 	if t.Op == "app" {
-		if t.Name == "select" && (t.Args[0].Sort == SArrI || t.Args[0].Sort == SArrB) && mentionsBound(t.Args[1], map[string]bool{k.Name: true}) &&
+		if t.Name == "select" && mentionsBound(t.Args[1], map[string]bool{k.Name: true}) &&
 			!mentionsBound(t.Args[0], map[string]bool{k.Name: true}) {
 			*out = append(*out, groundRead{arr: t.Args[0], idx: t.Args[1]})
 		}
@@ -402,8 +402,48 @@ func (c *qfCtx) skolem(q *Term) *Term {
 
 func (c *qfCtx) candidates(q *Term) []*Term {
 	k := q.Bound[0]
+	var all []groundRead
+	bodyReads(q.Args[0], k, &all)
+	// principal reads: per array, the read(s) at the smallest constant offset from k
+	// (s[k] rather than s[k+1], s[k+2]…): instantiating on every read of a wide
+	// body multiplies the instances without helping
+	type pr struct {
+		r groundRead
+		c int64
+		b string
+	}
+	var prs []pr
+	minOff := map[string]int64{}
+	for _, br := range all {
+		lf := newLin()
+		linearize(br.idx, big.NewInt(1), lf)
+		off := int64(0)
+		if lf.c.IsInt64() {
+			off = lf.c.Int64()
+		}
+		if co, ok := lf.coef[k.String()]; ok && co.Sign() < 0 {
+			off = -off
+		}
+		b := baseArray(br.arr).String()
+		// distinguish reads whose non-constant part differs (e.g. off+k and off+len+k)
+		delete(lf.coef, k.String())
+		var ks []string
+		for key := range lf.coef {
+			ks = append(ks, key+"*"+lf.coef[key].String())
+		}
+		sort.Strings(ks)
+		gk := b + "|" + strings.Join(ks, "+")
+		prs = append(prs, pr{br, off, gk})
+		if cur, ok := minOff[gk]; !ok || off < cur {
+			minOff[gk] = off
+		}
+	}
 	var brs []groundRead
-	bodyReads(q.Args[0], k, &brs)
+	for _, p := range prs {
+		if p.c == minOff[p.b] {
+			brs = append(brs, p.r)
+		}
+	}
 	cands := map[string]*Term{}
 	var order []string
 	for _, br := range brs {
@@ -429,8 +469,8 @@ func (c *qfCtx) candidates(q *Term) []*Term {
 		}
 		return order[i] < order[j]
 	})
-	if len(order) > 24 {
-		order = order[:24]
+	if len(order) > 64 {
+		order = order[:64]
 	}
 	var out []*Term
 	for _, key := range order {
@@ -450,14 +490,15 @@ func (c *qfCtx) qf(t *Term, pol int, depth int) *Term {
 			return t
 		}
 		k := t.Bound[0]
-		sk := c.skolem(t)
 		body := t.Args[0]
-		main := c.qf(subst(body, map[string]*Term{k.Name: sk}), pol, depth+1)
 		universalHyp := (t.Op == "forall" && pol > 0) || (t.Op == "exists" && pol < 0)
 		if !universalHyp {
-			return main
+			sk := c.skolem(t)
+			return c.qf(subst(body, map[string]*Term{k.Name: sk}), pol, depth+1)
 		}
-		parts := []*Term{main}
+		// a universal hypothesis contributes its instances only (its own Skolem
+		// instance would be sound but is noise that feeds further instantiation)
+		var parts []*Term
 		for _, cand := range c.candidates(t) {
 			if c.insts >= c.cap {
 				break
@@ -467,6 +508,9 @@ func (c *qfCtx) qf(t *Term, pol int, depth int) *Term {
 		}
 		if t.Op == "forall" {
 			return And(parts...)
+		}
+		if len(parts) == 0 {
+			return tFalse
 		}
 		return Or(parts...)
 	case "app":
@@ -537,7 +581,7 @@ func qfWeaken(assumes []*Term, goal *Term, rounds int) ([]*Term, *Term) {
 	g := goal
 	prev := -1
 	for round := 0; round < rounds; round++ {
-		c := &qfCtx{sk: sk, cap: 1500}
+		c := &qfCtx{sk: sk, cap: 6000}
 		c.nsk = len(sk)
 		seen := map[string]bool{}
 		for _, a := range out {
